@@ -71,7 +71,7 @@ def run_core(kind, prop, tier, seed):
 TIMER_CFG = ("MCTimers_quick.cfg", "MCTimers_deep.cfg", "MCTimers_sim.cfg", 60, 1200, 12)
 
 
-def run_timers(prop, tier, seed, cap=None):
+def run_timers(prop, tier, seed, cap=None, kcap=None):
     import random
     qc, tc, sc, qn, tn, depth = TIMER_CFG
     out = {"states": 0, "transitions": 0, "cases": [], "violations": [], "specs": ["Timers/" + (qc if tier == "quick" else tc), "Timers/" + sc]}
@@ -105,10 +105,10 @@ def run_timers(prop, tier, seed, cap=None):
                                       "replay": _save("%s-timers-%s" % (prop, kc), text), "sig": "tlc"})
             return out
         kb = coreexport.parse_cases(text, "TCASE")
-        kcap = 1200 if tier == "quick" else 100000
-        if len(kb) > kcap:
+        kc_ = kcap or (1200 if tier == "quick" else 100000)
+        if len(kb) > kc_:
             random.Random(seed + 1).shuffle(kb)
-            kb = kb[:kcap]
+            kb = kb[:kc_]
         behs += kb
     for i, b in enumerate(behs):
         out["cases"].append(coreexport.build_timer_case(b, "tm-%d" % i))
